@@ -427,6 +427,19 @@ func TestVerifC11Trie(t *testing.T) {
 		if n > stats.C["trie.keys.max"] {
 			stats.C["trie.keys.max"] = n
 		}
+		{ // number of trie nodes = distinct prefixes of the keys + root (64-bit hashes)
+			seen := map[uint64]struct{}{}
+			for _, k := range keys {
+				h := uint64(14695981039346656037)
+				for i := 0; i < len(k); i++ {
+					h = (h ^ uint64(k[i])) * 1099511628211
+					seen[h] = struct{}{}
+				}
+			}
+			if len(seen)+1 > stats.C["trie.nodes.max"] {
+				stats.C["trie.nodes.max"] = len(seen) + 1
+			}
+		}
 		stats.Add("trie.probe.all_keys", 3*n)
 	}
 	if VThorough() {
